@@ -1,7 +1,10 @@
 package main
 
 import (
+	"time"
+
 	"google.golang.org/protobuf/proto"
+	"google.golang.org/protobuf/types/known/durationpb"
 	"google.golang.org/protobuf/types/known/wrapperspb"
 
 	meshconfig "istio.io/api/mesh/v1alpha1"
@@ -23,6 +26,9 @@ var meshVariants = []func(m *meshconfig.MeshConfig){
 	},
 	func(m *meshconfig.MeshConfig) { m.AccessLogFile = "/dev/stdout" },
 	func(m *meshconfig.MeshConfig) { m.EnableAutoMtls = wrapperspb.Bool(false) },
+	// 3: read by EVERY generated cluster - and clusters are served from the xDS cache, whose key does not contain it: only
+	// the ClearAll of a Forced push keeps the cache honest
+	func(m *meshconfig.MeshConfig) { m.ConnectTimeout = durationpb.New(3 * time.Second) },
 }
 
 func isMesh(id string) bool { return id == meshID }
@@ -48,3 +54,9 @@ func (st *site) applyMesh(op string, variant int, cur world) error {
 	st.s.Discovery.ConfigUpdate(&model.PushRequest{Forced: true, Reason: model.NewReasonStats(model.GlobalUpdate)})
 	return nil
 }
+
+// pseudoObjs: the objects of the grammar that are neither Istio config nor composite kube services
+var pseudoObjs = []struct {
+	id string
+	n  int
+}{{meshID, len(meshVariants)}, {secretID, len(secretPairs)}, {ingressID, ingressVariants}}
